@@ -654,6 +654,24 @@ def rule_sorted_removal(chk, cls):
     chk.floor('remove calls that claim sorted input', n, 1)
 
 
+def rule_count(chk, cls):
+    """get_number_of_particles(real=True) is the number of real particles, whatever it is (0 for an array that holds only ghost / remote particles);
+    shared with C11: only_real output slices every property with it"""
+    fn = M.methods(cls).get('get_number_of_particles')
+    if fn is None:
+        raise AnalysisError('ParticleArray.get_number_of_particles vanished')
+    M.set_parents(fn)
+    arg = [a for a in M.arg_names(fn) if a != 'self']
+    rv = arg[0] if arg else 'real'
+    ifs = [i for i in ast.walk(fn) if isinstance(i, ast.If) and any(isinstance(x, ast.Name) and x.id == rv for x in ast.walk(i.test))]
+    ok = len(ifs) == 1 and isinstance(ifs[0].test, ast.Name) and len(ifs[0].body) == 1 and isinstance(ifs[0].body[0], ast.Return) and \
+        U(ifs[0].body[0].value) == 'self.num_real_particles'
+    chk.decide(ok, 'whole-property-coverage', 'get_number_of_particles:real-count', node=ifs[0] if ifs else fn, file=PA, func='get_number_of_particles',
+               detail_bad='with real=True the method does not return self.num_real_particles under the test `%s` alone (found `%s`): an array without real particles reports its '
+                          'total length, so only_real output writes its ghost / remote particles' % (rv, U(ifs[0].test) if ifs else None),
+               detail_ok='if %s: return self.num_real_particles' % rv)
+
+
 def main(chk):
     chk.explanation = ('Structural coherence rules over every method of ParticleArray (Cython parse tree lowered to ast): '
                        'per-property maps kept in step on delete/rebind/insert, every sized operation scaled by the stride '
@@ -672,6 +690,7 @@ def main(chk):
     rule_tag_scans(chk, cls)
     rule_storage(chk, cls)
     rule_sorted_removal(chk, cls)
+    rule_count(chk, cls)
     # align_particles keeps its index array a permutation (rule shared with C16, which relies on it after removals)
     import importlib.util
     spec = importlib.util.spec_from_file_location('c16mod', os.path.join(os.path.dirname(os.path.abspath(__file__)), 'c16.py'))
